@@ -99,7 +99,7 @@ CLAIMED = {
              'model: C05_decode_data and C05_decode_str -- for EVERY codeword list the data decoder (ASCII, C40/Text, X12, EDIFACT, Base256, '
              'ECI designators, macro handling, padding check) and the string decoder (ECI span slicing, ISO 8859 tables, UTF-8) return a value '
              'or an error: bounds of every table index, u8 additions, termination of the mode loop (measure 2*remaining+mode) and the ECI '
-             'span invariant are proved; C05_try_from_bits -- the same for every bool vector and width. PARTIAL: for the Reed-Solomon decoder '
+             'span invariant are proved; C05_try_from_bits -- the same for every bool vector and width; C05_codewords_total and C05_decode_glue -- for every pixel array the glue of DataMatrix::decode (parsing, placement read-out of any content, data/error split, data decoder) cannot panic: a panic of decode() can only originate inside decode_error. PARTIAL: for the Reed-Solomon decoder '
              'only the shape of successful results is proved (C09); that no received word drives the Levinson-Durbin/Bjoerck-Pereyra code '
              'out of bounds, into a division by zero or into its own debug assertions is NOT a theorem. That part, and the whole-symbol entry '
              'point, rest on the correspondence run in debug AND release builds with panics caught: random words for all 48 sizes, words '
